@@ -50,6 +50,7 @@ func init() {
 	reg(&Profile{Name: "c01", PForged: 10, Property: "C01", Oracles: []string{"roots"},
 		Nodes: func(r *Rng) []NodeCfg {
 			ns := allForests(r)
+			ns = append(ns, NodeCfg{Kind: "stump", Big: bigOffset(r)})
 			ns = append(ns, NodeCfg{Kind: "pollard", Relay: "rebatch", NoUndo: true},
 				NodeCfg{Kind: "mapfull", TotalRows: rowsChoice(r), Relay: "rebatch", NoUndo: true})
 			if r.Pct(50) {
@@ -78,14 +79,16 @@ func init() {
 		},
 		MaxBlocks: 30, MaxAdds: 40, PReorg: 30, PSnapCrash: 3, NetFaults: true})
 	lightNodes := func(r *Rng) []NodeCfg {
-		return []NodeCfg{{Kind: "light"}, {Kind: "light"}, {Kind: "light"}, {Kind: "stump"}}
+		return []NodeCfg{{Kind: "light"}, {Kind: "light"}, {Kind: "light", Big: bigOffset(r)}, {Kind: "stump"}, {Kind: "light", Big: bigOffset(r)}}
 	}
 	reg(&Profile{Name: "c07", Property: "C07", Oracles: []string{"roots", "light"},
 		Nodes: lightNodes, MaxBlocks: 40, MaxAdds: 40, PReorg: 10, PSnapCrash: 3, NetFaults: true})
 	reg(&Profile{Name: "c08", Property: "C08", Oracles: []string{"roots", "light"},
 		Nodes: lightNodes, MaxBlocks: 40, MaxAdds: 40, PReorg: 35, PSnapCrash: 3, NetFaults: true})
 	reg(&Profile{Name: "c11", Property: "C11", Oracles: []string{"roots", "updatedata"},
-		Nodes:     func(r *Rng) []NodeCfg { return []NodeCfg{{Kind: "stump"}, {Kind: "stump"}} },
+		Nodes: func(r *Rng) []NodeCfg {
+			return []NodeCfg{{Kind: "stump"}, {Kind: "stump", Big: bigOffset(r)}, {Kind: "stump", Big: bigOffset(r)}}
+		},
 		MaxBlocks: 40, MaxAdds: 64, PReorg: 10, NetFaults: true})
 	reg(&Profile{Name: "c09", PForged: 25, Property: "C09", Oracles: []string{"roots", "partial"},
 		Nodes: func(r *Rng) []NodeCfg {
